@@ -12,6 +12,7 @@ import (
 	"fmt"
 	"os"
 	"regexp"
+	"sort"
 	"strings"
 	"time"
 
@@ -46,6 +47,10 @@ type scenario struct {
 	prepare func(w *world, pfx string) (*sdata, error)
 	run     func(w *world, pfx string, d *sdata) error // an error is expected when a fault fires
 	async   bool                                        // the operation continues after the command returned
+	refuses bool                                        // the command is answered NO even without a fault (APPEND fallback)
+	// marker of the message an APPEND hands over: when the APPEND fails the server keeps the message in the recovery
+	// mailbox instead (its designed alternative outcome) — the view "before + that copy" is then legitimate as well
+	fallback string
 	model   func(e *emitter, ref *refRun) string         // Gallina term of the model operation (emit.go)
 }
 
@@ -132,11 +137,20 @@ func scenarios(tier string) []scenario {
 	}
 	sel := func(d *sdata, mbox string) error { return cmds(d.c, "SELECT "+imapc.Quote(mbox)) }
 	return []scenario{
-		{name: "append",
+		{name: "append", fallback: "new",
 			prepare: func(w *world, pfx string) (*sdata, error) { return prepAB(w, pfx, 1, false) },
 			run: func(w *world, pfx string, d *sdata) error {
 				return appendMsg(d.c, mk(pfx, "A"), mk(pfx, "new"), "")
 			}, model: modelAppend},
+		{name: "appendrecovered", refuses: true,
+			// the connector refuses the message: APPEND answers NO and keeps the message in the recovery mailbox
+			prepare: func(w *world, pfx string) (*sdata, error) { return prepAB(w, pfx, 1, false) },
+			run: func(w *world, pfx string, d *sdata) error {
+				if _, err := w.p.call(req{Op: "failnext", Name: "CreateMessage"}); err != nil {
+					return err
+				}
+				return appendMsg(d.c, mk(pfx, "A"), mk(pfx, "rec"), "")
+			}, model: modelAppendRecovered},
 		{name: "copy",
 			prepare: func(w *world, pfx string) (*sdata, error) {
 				d, err := prepAB(w, pfx, 3, true)
@@ -251,6 +265,22 @@ func scenarios(tier string) []scenario {
 	}
 }
 
+// sameEntries compares two rendered views as sets of mailbox entries.
+func sameEntries(a, b string) bool {
+	split := func(v string) []string {
+		var out []string
+		for _, p := range strings.Split(strings.TrimSpace(v), "} ") {
+			p = strings.TrimSuffix(strings.TrimSpace(p), "}")
+			if p != "" {
+				out = append(out, p)
+			}
+		}
+		sort.Strings(out)
+		return out
+	}
+	return strings.Join(split(a), "|") == strings.Join(split(b), "|")
+}
+
 var reUIDVMask = regexp.MustCompile(`\{v\d+ `)
 
 func maskUIDV(v string) string { return reUIDVMask.ReplaceAllString(v, "{v# ") }
@@ -292,23 +322,25 @@ type refRun struct {
 
 // quiesce waits until no store / database activity has been seen for a few polls (sessions that ended keep purging
 // asynchronously; such activity must not be counted as boundaries of the operation under test).
-func (w *world) quiesce() {
+func (w *world) quiesce() { w.quiesceN(4, 3*time.Millisecond) }
+
+func (w *world) quiesceN(need int, step time.Duration) {
 	last, same := -1, 0
-	for i := 0; i < 400; i++ {
+	for i := 0; i < 2000; i++ {
 		r, err := w.p.call(req{Op: "seen"})
 		if err != nil {
 			return
 		}
 		if r.Total == last {
 			same++
-			if same >= 4 {
+			if same >= need {
 				return
 			}
 		} else {
 			same = 0
 		}
 		last = r.Total
-		time.Sleep(3 * time.Millisecond)
+		time.Sleep(step)
 	}
 }
 
@@ -425,14 +457,14 @@ func (w *world) runScenario(si int, sc scenario) error {
 	if ref.before, _, err = viewOf(w.p, ref.pfx); err != nil {
 		return err
 	}
-	w.quiesce()
+	w.quiesceN(12, 5*time.Millisecond) // the traced run must not contain the tail of an earlier session's purge
 	if ref.snapBefore, err = w.snap(); err != nil {
 		return err
 	}
 	ref.filesBefore = storeFiles(w.dir)
 	w.p.call(req{Op: "trace_start"})
 	w.p.call(req{Op: "arm", K: 1 << 30, Mode: "fail"})
-	if err := sc.run(w, ref.pfx, d); err != nil {
+	if err := sc.run(w, ref.pfx, d); err != nil && !sc.refuses {
 		closeAll(d)
 		return fmt.Errorf("reference run: %w", err)
 	}
@@ -474,6 +506,10 @@ func (w *world) runScenario(si int, sc scenario) error {
 	// ---- faults ----
 	for _, mode := range []string{"fail", "kill"} {
 		for k := 0; k < ref.n; k++ {
+			// large batches (thorough tier): the first and last 30 boundaries and every 53rd in between
+			if ref.n > 80 && k >= 30 && k < ref.n-30 && k%53 != 0 {
+				continue
+			}
 			pfx := fmt.Sprintf("%s%d_%d_", strings.ToUpper(mode[:1]), si, k)
 			canon := fmt.Sprintf("%s boundary=%d/%d fault=%s", sc.name, k, ref.n, mode)
 			w.ctx.Current(canon, map[string]any{"scenario": sc.name, "k": k, "mode": mode})
@@ -492,6 +528,7 @@ func (w *world) runScenario(si int, sc scenario) error {
 			}
 			runErr := sc.run(w, pfx, d)
 			fired := false
+			diedOnError := false
 			if mode == "kill" {
 				if w.p.died(3 * time.Second) {
 					fired = true
@@ -508,10 +545,31 @@ func (w *world) runScenario(si int, sc scenario) error {
 				w.settle(sc.async)
 				r, err := w.p.call(req{Op: "disarm"})
 				if err != nil {
-					return err
+					// the server process died although the step only returned an error
+					closeAll(d)
+					if !w.p.died(5 * time.Second) {
+						return err
+					}
+					tail := ""
+					if b, e := os.ReadFile(w.dir + ".stderr"); e == nil {
+						if len(b) > 3000 {
+							b = b[len(b)-3000:]
+						}
+						tail = string(b)
+					}
+					// not a C07 violation by itself (the process died: the restart must show the before- or after-state,
+					// which is checked below exactly as for a kill); recorded for the report
+					res.Notes = append(res.Notes, "server process exited when a step returned an error ("+canon+"): "+tail)
+					res.Count("died-on-injected-error")
+					if err := w.restart(""); err != nil {
+						return err
+					}
+					diedOnError = true
+					fired = true
+				} else {
+					fired = r.Fired
+					closeAll(d)
 				}
-				fired = r.Fired
-				closeAll(d)
 			}
 			res.Evaluations++
 			res.Count("fault:" + mode)
@@ -531,6 +589,8 @@ func (w *world) runScenario(si int, sc scenario) error {
 				verdict = "before"
 			case maskUIDV(after) == maskUIDV(expAfter) && uidvKept(before, after):
 				verdict = "after"
+			case sc.fallback != "" && sameEntries(after, before+" "+recoveryName+"{"+pfx+sc.fallback+"[]}"):
+				verdict = "fallback"
 			}
 			res.Count("verdict:" + sc.name + ":" + mode + ":" + verdict)
 			detail := fmt.Sprintf("before: %s | after the fault: %s | expected after-view: %s | run error: %v", before, after, expAfter, runErr)
@@ -540,7 +600,7 @@ func (w *world) runScenario(si int, sc scenario) error {
 			if len(bad) > 0 {
 				res.Fail("listed-message-not-fetchable | "+canon, strings.Join(bad, "; ")+" | "+detail, nil)
 			}
-			if mode == "kill" {
+			if mode == "kill" || diedOnError {
 				lo, err := w.leftovers()
 				if err != nil {
 					return err
